@@ -134,7 +134,7 @@ for mut, what in [("loop_skip", "remove_node skipping the self-loop link (and it
     expect("GraphMapImpl mutant %s violates Inv: %s" % (mut, what), any("Invariant Inv is violated" in e for e in r.errors), str(r.errors[:1]))
 
 for mut, what in [("skip_one", "IdIterator skipping only one removed id"), ("clear_upto_count", "remove_node clearing cells for ids 0..node_count instead of the live ids"),
-                  ("no_incoming_clear", "remove_node not clearing the incoming cells of a directed matrix")]:
+                  ("no_incoming_clear", "remove_node not clearing the incoming cells of a directed matrix"), ("clear_live_block", "clear() resetting only the cells of the first node_count ids")]:
     r = tlc("simple/MatrixImpl", "MCMatrixImplNeg_%s.cfg" % mut, workers=4, timeout=300)
     expect("MatrixImpl mutant %s violates Inv: %s" % (mut, what), any("Invariant Inv is violated" in e for e in r.errors), str(r.errors[:1]))
 
